@@ -317,10 +317,10 @@ def run(acc, tier):
         bounds = (4, 6)
         counts = (150, 100, 80, 60)
     else:
-        bounds = (5, 7)
-        counts = (3000, 1500, 1000, 800)
-        engine.fuzz(acc, "pair", CHECKS, 60000, corpus_seeds=[[3, 5, 10, 200, 30, 5, 9, 7, 1, 8, 2, 6], [2, 4, 9, 1, 3, 2]])
-        engine.fuzz(acc, "coloured", CHECKS, 30000, nproc=8)
+        bounds = (5, 8)
+        counts = (20000, 8000, 6000, 5000)
+        engine.fuzz(acc, "pair", CHECKS, 300000, corpus_seeds=[[3, 5, 10, 200, 30, 5, 9, 7, 1, 8, 2, 6], [2, 4, 9, 1, 3, 2]])
+        engine.fuzz(acc, "coloured", CHECKS, 150000)
     engine.pmap(acc, shard_exhaustive, extra=bounds)
     engine.pmap(acc, shard_generated, extra=counts)
     acc.note("exhaustive_bound", {"max_pattern_len": bounds[0], "max_perm_len": bounds[1]})
